@@ -215,6 +215,37 @@ def psfphot_images(rep, r, n):
         rep.probe_only += 1
         if not np.array_equal(res, img - mod):
             rep.violation('residual-ne-data-minus-model', 'make_residual_image != data - make_model_image', {})
+            continue
+        # the same with a sky pedestal and a local-background estimator, for every container the data may arrive in
+        import astropy.units as u
+        from astropy.nddata import NDData
+        from photutils.background import LocalBackground
+        sky = r.choice([3.0, 7.5])
+        img2 = img + sky
+        ph2 = PSFPhotometry(CircularGaussianPRF(fwhm=2.5), (5, 5), aperture_radius=4, progress_bar=False, localbkg_estimator=LocalBackground(5, 8))
+        with warnings.catch_warnings():
+            warnings.simplefilter('ignore')
+            ph2(img2, init_params=Table({'x': [s[0] for s in srcs], 'y': [s[1] for s in srcs]}))
+            for inc in (True, False):
+                mod2 = ph2.make_model_image(img2.shape, psf_shape=(9, 9), include_localbkg=inc)
+                for cname, cont in (('ndarray', img2), ('nddata', NDData(img2)), ('nddata-unit', NDData(img2, unit=u.Jy)), ('quantity', img2 * u.Jy)):
+                    rep.count(f'residual-container:{cname}:include_localbkg={inc}')
+                    try:
+                        if cname in ('nddata-unit', 'quantity'):
+                            phu = PSFPhotometry(CircularGaussianPRF(fwhm=2.5), (5, 5), aperture_radius=4, progress_bar=False, localbkg_estimator=LocalBackground(5, 8))
+                            phu(img2 * u.Jy, init_params=Table({'x': [s[0] for s in srcs], 'y': [s[1] for s in srcs]}))
+                            got = phu.make_residual_image(cont, psf_shape=(9, 9), include_localbkg=inc)
+                        else:
+                            got = ph2.make_residual_image(cont, psf_shape=(9, 9), include_localbkg=inc)
+                    except Exception as e:                      # noqa: BLE001
+                        rep.violation(f'residual-raises:{cname}:{type(e).__name__}', f'make_residual_image({cname}, include_localbkg={inc}) raised {e!r}',
+                                      {'sources': srcs, 'sky': sky})
+                        continue
+                    arr = np.asarray(getattr(got, 'data', got) if cname.startswith('nddata') else getattr(got, 'value', got), float)
+                    if not np.allclose(arr, img2 - mod2, rtol=0, atol=1e-9):
+                        rep.violation(f'residual-ne-data-minus-model:{cname}:include_localbkg={inc}',
+                                      f'make_residual_image({cname}, include_localbkg={inc}) differs from data - make_model_image by '
+                                      f'{float(np.abs(arr - (img2 - mod2)).max()):.3g}', {'sources': srcs, 'sky': sky})
 
 
 def iterative_images(rep, r, n):
